@@ -94,8 +94,21 @@ def run_verus(unit_name, text, rlimit=None, threads=None, tag=''):
             continue
         if msg.startswith('aborting due to'):
             continue
-        spans = [{'line_start': s['line_start'], 'line_end': s['line_end'], 'primary': s.get('is_primary'), 'label': s.get('label'),
-                  'text': ' '.join(x['text'].strip() for x in s.get('text', []))[:300]} for s in dj.get('spans', [])]
+        def in_unit(sp):
+            # a span inside a macro expansion (e.g. debug_assert!'s precondition lives in vstd): follow the expansion chain back
+            # to the call site in the unit file
+            n = 0
+            while sp is not None and not str(sp.get('file_name', '')).endswith('unit.rs') and n < 8:
+                sp = (sp.get('expansion') or {}).get('span')
+                n += 1
+            return sp
+        spans = []
+        for s0 in dj.get('spans', []):
+            s = in_unit(s0)
+            if s is None:
+                continue
+            spans.append({'line_start': s['line_start'], 'line_end': s['line_end'], 'primary': s0.get('is_primary'), 'label': s0.get('label'),
+                          'text': ' '.join(x['text'].strip() for x in s.get('text', []))[:300]})
         kind = 'tool'
         if dj.get('code') is None and any(msg.startswith(m) or m in msg for m in OBLIGATION_MSGS):
             kind = 'obligation'
